@@ -74,7 +74,7 @@ theorem lowerFirst_ident {s : Str} (h : IdentStr s) : IdentStr (Rename.lowerFirs
     · exact identChar_lower c (h c (by simp))
     · exact h d (by simp [hd])
 
-theorem toCamel_ident {s : Str} (h : IdentStr s) : IdentStr (Rename.toCamel s) := lowerFirst_ident (toPascal_ident h)
+theorem toCamel_ident {U : UnicodeOps} {s : Str} (h : IdentStr s) : IdentStr (Rename.toCamel U s) := lowerFirst_ident (toPascal_ident h)
 
 /-! ## types -/
 
@@ -565,10 +565,10 @@ theorem kw_nb {t : Str} (h : NB W t) : NB W (kw t) := by
     exact NameStr.nb hn
   · exact h
 
-theorem algebraicCaseName_ident (v : RustEnumVariant) (h : IdentStr v.id.original) : IdentStr (algebraicCaseName v) := by
-  have hp := toCamel_ident h
+theorem algebraicCaseName_ident (U : UnicodeOps) (v : RustEnumVariant) (h : IdentStr v.id.original) : IdentStr (algebraicCaseName U v) := by
+  have hp := toCamel_ident (U := U) h
   simp only [algebraicCaseName]
-  cases hn : Rename.toCamel v.id.original with
+  cases hn : Rename.toCamel U v.id.original with
   | nil => intro c hc; simp at hc
   | cons c t =>
     rw [hn] at hp
@@ -593,10 +593,10 @@ structure EnumDecorOk (U : UnicodeOps) (cfg : Cfg) (e : RustEnum) : Prop where
   structConf : ∀ c ∈ structConformances cfg e.decorators, NB W c
   enumConf : ∀ c ∈ enumConformances cfg e, NB W c
 
-theorem algebraicCase_ok {cfg : Cfg} (H : CfgOk cfg) (e : RustEnum) (he : EnumOk e) (v : RustEnumVariant)
+theorem algebraicCase_ok {U : UnicodeOps} {cfg : Cfg} (H : CfgOk cfg) (e : RustEnum) (he : EnumOk e) (v : RustEnumVariant)
     (hv : VariantOk v) (st : Swift.St) (c : EnumCase) (st' : Swift.St)
-    (h : algebraicCase cfg e v st = .ok (c, st')) : CaseOk c := by
-  have hname := algebraicCaseName_ident v hv.original
+    (h : algebraicCase U cfg e v st = .ok (c, st')) : CaseOk c := by
+  have hname := algebraicCaseName_ident U v hv.original
   unfold algebraicCase at h
   cases v with
   | unit id cs =>
@@ -625,9 +625,9 @@ theorem algebraicCase_ok {cfg : Cfg} (H : CfgOk cfg) (e : RustEnum) (he : EnumOk
       obtain ⟨_, _, h, _⟩ := this
       exact h
 
-theorem algebraicCases_ok {cfg : Cfg} (H : CfgOk cfg) (e : RustEnum) (he : EnumOk e) :
+theorem algebraicCases_ok {U : UnicodeOps} {cfg : Cfg} (H : CfgOk cfg) (e : RustEnum) (he : EnumOk e) :
     ∀ (vs : List RustEnumVariant) (st : Swift.St) (cs : List EnumCase) (st' : Swift.St), (∀ v ∈ vs, VariantOk v) →
-      algebraicCases cfg e vs st = .ok (cs, st') → ∀ c ∈ cs, CaseOk c
+      algebraicCases U cfg e vs st = .ok (cs, st') → ∀ c ∈ cs, CaseOk c
   | [], st, cs, st', _, h => by simp only [algebraicCases] at h; cases h; simp
   | v :: vs, st, cs, st', hv, h => by
     simp only [algebraicCases] at h
@@ -640,8 +640,8 @@ theorem algebraicCases_ok {cfg : Cfg} (H : CfgOk cfg) (e : RustEnum) (he : EnumO
     · exact algebraicCase_ok H e he v (hv v (by simp)) st _ st1 hc
     · exact algebraicCases_ok H e he vs st1 rest _ (fun w hw => hv w (by simp [hw])) hrest x hx
 
-theorem unitCase_ok (v : RustEnumVariant) (hv : VariantOk v) : CaseOk (unitCase v) := by
-  have hname := toCamel_ident hv.original
+theorem unitCase_ok (U : UnicodeOps) (v : RustEnumVariant) (hv : VariantOk v) : CaseOk (unitCase U v) := by
+  have hname := toCamel_ident (U := U) hv.original
   exact ⟨hv.docs, KeyStr.name (IdentStr.key hname), kw_name (IdentStr.key hname), hv.renamed, by intro p hp; cases hp⟩
 
 theorem anonymousStructs_ok (U : UnicodeOps) {cfg : Cfg} (H : CfgOk cfg) (e : RustEnum) (he : EnumOk e)
@@ -730,7 +730,7 @@ theorem writeEnum_nb (U : UnicodeOps) {cfg : Cfg} (H : CfgOk cfg) (e : RustEnum)
       intro c hc
       simp only [List.mem_map] at hc
       obtain ⟨v, hv, rfl⟩ := hc
-      exact unitCase_ok v (he.variants v hv)
+      exact unitCase_ok U v (he.variants v hv)
     · exact algebraicCases_ok H e he e.variants st2 cases _ he.variants hcs
   have hnm : NameStr (kw (cfg.pfx ++ e.id.renamed)) := kw_name (KeyStr.append H.pfx he.renamed)
   refine NB.append (NB.append NB.nl (NB.flatMap _ _ fun s hs => renderStruct_nb U s (hstructs s hs))) (renderEnum_nb U _ ?_)
